@@ -3,5 +3,8 @@ CONSTANTS
   NW = 2
   K = 2
   PerThread = TRUE
+  Shape = "seedDraw"
 INVARIANT StreamIsolation
+INVARIANT NoClock
+INVARIANT SeedDrawStream
 CHECK_DEADLOCK FALSE
